@@ -2239,3 +2239,37 @@ V("C02", "repaired_constant_refused_before_validation", "benign", None, (Z, """ 
         else:"""))
 for _p in ("C01", "C03", "C05", "C07", "C08", "C10", "C12", "C14"):
     V(_p, "repaired_constant_refused_before_validation", "benign", None, *[v for v in VARIANTS if v["name"] == "repaired_constant_refused_before_validation" and v["prop"] == "C02"][0]["edits"])
+# --- round k
+V("C01", "none_item_admitted_by_allow_none", "fire", "R01.h", (P, "            if _is_number(n):\n                continue", "            if _is_number(n) or (allow_None and n is None):\n                continue"))
+V("C01", "benign_numeric_item_test_negated", "benign", None, (P, "        for n in val:\n            if _is_number(n):\n                continue\n            raise ValueError(\n                f\"{_validate_error_prefix(self)} only takes numeric \"\n                f\"values, not {type(n)}.\"\n            )", "        for n in val:\n            if not _is_number(n):\n                raise ValueError(\n                    f\"{_validate_error_prefix(self)} only takes numeric \"\n                    f\"values, not {type(n)}.\"\n                )"))
+V("C03", "unwatch_drops_the_queued_delivery", "fire", "R03.j", (Z, "            self_.warning(f'No such watcher {str(watcher)} to remove.')\n", "            self_.warning(f'No such watcher {str(watcher)} to remove.')\n        else:\n            self_._state_watchers = [w for w in self_._state_watchers if w is not watcher]\n"))
+V("C03", "namespace_resolved_by_truthiness", "fire", "R03.i", (Z, "        return self_.cls if self_.self is None else self_.self", "        return self_.self or self_.cls"))
+V("C04", "event_queued_before_the_changes_only_filter", "fire", "R04.a", (Z, "        if self_._TRIGGER:\n            pass\n        elif watcher.onlychanged and (not self_._changed(event)):\n            return\n\n        if self_._BATCH_WATCH:\n            self_._events.append(event)", "        if self_._BATCH_WATCH:\n            self_._events.append(event)\n        if self_._TRIGGER:\n            pass\n        elif watcher.onlychanged and (not self_._changed(event)):\n            return\n\n        if self_._BATCH_WATCH:"))
+V("C04", "flush_keeps_its_event_table_across_rounds", "fire", "R04.h", (Z, "        while self_._events:\n            event_dict = OrderedDict([((event.name, event.what), event)\n                                      for event in self_._events])", "        event_dict = OrderedDict()\n        while self_._events:\n            for event in self_._events:\n                event_dict[(event.name, event.what)] = event"))
+V("C05", "remaining_watchers_requeued_after_a_failure", "fire", "R05.v", (Z, "        for watcher in sorted(watchers, key=lambda w: w.precedence):\n            obj.param._call_watcher(watcher, event)\n        if not obj.param._BATCH_WATCH:\n            obj.param._batch_call_watchers()\n\n    def _relink", "        pending = sorted(watchers, key=lambda w: w.precedence)\n        try:\n            while pending:\n                obj.param._call_watcher(pending.pop(0), event)\n        finally:\n            if pending:\n                with _batch_call_watchers(obj, run=False):\n                    for watcher in pending:\n                        obj.param._call_watcher(watcher, event)\n        if not obj.param._BATCH_WATCH:\n            obj.param._batch_call_watchers()\n\n    def _relink"))
+V("C05", "benign_dispatch_loop_over_a_sorted_copy", "benign", None, (Z, "        for watcher in sorted(watchers, key=lambda w: w.precedence):\n            obj.param._call_watcher(watcher, event)\n        if not obj.param._BATCH_WATCH:\n            obj.param._batch_call_watchers()\n\n    def _relink", "        ordered = sorted(watchers, key=lambda w: w.precedence)\n        for watcher in ordered:\n            obj.param._call_watcher(watcher, event)\n        if not obj.param._BATCH_WATCH:\n            obj.param._batch_call_watchers()\n\n    def _relink"))
+V("C05", "resolver_publishes_before_repointing", "fire", "R05.o", (R, "            if events:\n                self._update_refs(refs)\n        self.value = value\n        return refs", "        self.value = value\n        if events and self.recursive:\n            self._update_refs(refs)\n        return refs"))
+V("C06", "class_level_dependency_carries_the_declaring_class", "fire", "R06.d", (Z, "            info = PInfo(inst=inst, cls=cls, name=attr,\n                         pobj=src.param[attr], what=what)", "            pobj = src.param[attr]\n            if inst is None and isinstance(pobj.owner, type):\n                cls = pobj.owner\n            info = PInfo(inst=inst, cls=cls, name=attr,\n                         pobj=pobj, what=what)"))
+V("C07", "named_method_specs_always_resolved_dynamically", "fire", "R07.r", (Z, "                method_deps, method_dynamic_deps = _params_depended_on(dep, dynamic, intermediate)", "                method_deps, method_dynamic_deps = _params_depended_on(dep, intermediate=intermediate)"))
+V("C06", "named_method_specs_always_resolved_dynamically", "fire", "R06.r", (Z, "                method_deps, method_dynamic_deps = _params_depended_on(dep, dynamic, intermediate)", "                method_deps, method_dynamic_deps = _params_depended_on(dep, intermediate=intermediate)"))
+V("C08", "sync_rolls_back_accepted_keys", "fire", "R08.n", (Z, "                setattr(self_or_cls, k, v)\n        finally:\n            # Whether or not a value was rejected", "                setattr(self_or_cls, k, v)\n                applied_keys.append(k)\n        except Exception:\n            for k in applied_keys:\n                setattr(self_or_cls, k, restore[k])\n            raise\n        finally:\n            # Whether or not a value was rejected"), (Z, "        try:\n            values = self_.values()\n            restore = {k: values[k] for k, v in kwargs.items() if k in values}", "        applied_keys = []\n        try:\n            values = self_.values()\n            restore = {k: values[k] for k, v in kwargs.items() if k in values}"))
+V("C09", "arguments_evaluated_before_the_pipeline", "fire", "R09.o", (R, "                obj = self._obj if self._prev is None else self._prev._resolve()\n                if obj is Skip or obj is Undefined:\n                    self._current_ = Undefined\n                    raise Skip\n                operation = self._operation\n                if operation:", "                operation = self._operation\n                if operation:\n                    for _arg in operation['args']:\n                        resolve_value(_arg)\n                obj = self._obj if self._prev is None else self._prev._resolve()\n                if obj is Skip or obj is Undefined:\n                    self._current_ = Undefined\n                    raise Skip\n                if operation:"))
+V("C10", "result_applied_from_a_loop_callback", "fire", "R10.w", (Z, "                async for new_obj in awaitable:\n                    with _syncing(self_.self, (pname,)):\n                        self_.update({pname: new_obj})", "                async for new_obj in awaitable:\n                    def _apply(value=new_obj):\n                        with _syncing(self_.self, (pname,)):\n                            self_.update({pname: value})\n                    asyncio.get_running_loop().call_soon(_apply)"))
+V("C11", "descriptor_found_depth_first", "fire", "R11.q", (Z, "        classes = classlist(mcs)\n        for c in classes[::-1]:\n            attribute = c.__dict__.get(param_name)\n            if isinstance(attribute,Parameter):\n                return attribute,c\n        return None,None", "        attribute = mcs.__dict__.get(param_name)\n        if isinstance(attribute,Parameter):\n            return attribute,mcs\n        for base in mcs.__bases__:\n            if isinstance(base, ParameterizedMetaclass):\n                attribute,c = base.get_param_descriptor(param_name)\n                if attribute is not None:\n                    return attribute,c\n        return None,None"))
+V("C14", "descriptor_found_depth_first", "fire", "R14.q", (Z, "        classes = classlist(mcs)\n        for c in classes[::-1]:\n            attribute = c.__dict__.get(param_name)\n            if isinstance(attribute,Parameter):\n                return attribute,c\n        return None,None", "        attribute = mcs.__dict__.get(param_name)\n        if isinstance(attribute,Parameter):\n            return attribute,mcs\n        for base in mcs.__bases__:\n            if isinstance(base, ParameterizedMetaclass):\n                attribute,c = base.get_param_descriptor(param_name)\n                if attribute is not None:\n                    return attribute,c\n        return None,None"))
+V("C14", "benign_descriptor_found_along_the_mro", "benign", None, (Z, "        classes = classlist(mcs)\n        for c in classes[::-1]:\n            attribute = c.__dict__.get(param_name)", "        for c in reversed(classlist(mcs)):\n            attribute = c.__dict__.get(param_name)"))
+V("C12", "event_mode_switched_on_the_existing_objects", "fire", "R12.u2", (Z, "        trigger_params = [\n            k for k in kwargs\n            if k in self_ and hasattr(self_[k], '_autotrigger_value')\n        ]", "        pobjs = self_.objects('existing')\n        trigger_params = [\n            k for k in kwargs\n            if hasattr(pobjs.get(k), '_autotrigger_value')\n        ]"), (Z, "        switched = [self_[tp] for tp in trigger_params]", "        switched = [pobjs[tp] for tp in trigger_params]"))
+V("C12", "private_random_state_only_for_the_default_one", "fire", "R12.h", (NG, "        if self.time_dependent or not shared:\n            self.random_generator = type(self.random_generator)(seed)", "        if (self.time_dependent or not shared) and self.random_generator is TimeAwareRandomState.random_generator:\n            self.random_generator = type(self.random_generator)(seed)"))
+V("C13", "existing_lookup_memoised_per_instance", "fire", "R13.x", (Z, "                if getattr(self_.self._param__private, 'initialized', False) and self_.self._param__private.params:\n                    return dict(pdict, **self_.self._param__private.params)", "                private = self_.self._param__private\n                if getattr(private, 'initialized', False) and private.params:\n                    memo = private.watchers.setdefault('__existing__', {})\n                    if memo.get('n') != len(private.params):\n                        memo['n'] = len(private.params)\n                        memo['lookup'] = dict(pdict, **private.params)\n                    return memo['lookup']"))
+V("C17", "clock_reduced_by_reference_when_equal", "fire", "R17.r", (P, "    def __iter__(self): return self\n\n\n    def __next__(self):", "    def __reduce_ex__(self, protocol):\n        if self == Dynamic.time_fn:\n            return (_the_global_clock, ())\n        return super().__reduce_ex__(protocol)\n\n\n    def __iter__(self): return self\n\n\n    def __next__(self):"), (P, "class Time(Parameterized):\n", "def _the_global_clock():\n    return Dynamic.time_fn\n\n\nclass Time(Parameterized):\n"))
+V("C17", "benign_clock_reduced_by_reference_when_identical", "benign", None, (P, "    def __iter__(self): return self\n\n\n    def __next__(self):", "    def __reduce_ex__(self, protocol):\n        if self is Dynamic.time_fn:\n            return (_the_global_clock, ())\n        return super().__reduce_ex__(protocol)\n\n\n    def __iter__(self): return self\n\n\n    def __next__(self):"), (P, "class Time(Parameterized):\n", "def _the_global_clock():\n    return Dynamic.time_fn\n\n\nclass Time(Parameterized):\n"))
+V("C19", "rational_pair_from_digits_and_exponent", "fire", "R19.r", (NG, "        elif hasattr(val, 'numerator') and hasattr(val, 'denominator'):\n            # gmpy2 mpq objects have these attributes", "        elif isinstance(val, decimal.Decimal):\n            exponent = val.as_tuple().exponent\n            denom = 10 ** -exponent if exponent < 0 else 1\n            numer = int(val * denom)\n        elif hasattr(val, 'numerator') and hasattr(val, 'denominator'):\n            # gmpy2 mpq objects have these attributes"), (NG, "import hashlib\n", "import hashlib\nimport decimal\n"))
+V("C19", "watcher_of_until_moves_the_clock", "fire", "R19.x", (P, "        self._exhausted = None\n        self._pushed_state = []\n", "        self._exhausted = None\n        self._pushed_state = []\n        self.param.watch(self._until_changed, 'until')\n\n    def _until_changed(self, event):\n        if self._time > event.new:\n            self._time = self.time_type(event.new)\n"))
+V("C20", "import_dropped_for_a_prefix_named_module", "fire", "R20.i", (Z, "    imports = list(set(imports))\n    imports_str", "    imports = set(imports)\n    imports = sorted(i for i in imports if not any(j != i and j.startswith(i) for j in imports))\n    imports_str"))
+V("C20", "benign_imports_sorted", "benign", None, (Z, "    imports = list(set(imports))\n    imports_str", "    imports = sorted(set(imports))\n    imports_str"))
+V("C18", "equal_object_keeps_the_old_list_element", "fire", "R18.j", (P, "            if index in self._parameter.names:\n                old = self._parameter.names[index]\n                idx = self.index(old)\n                super().__setitem__(idx, object)\n                self._parameter._objects[idx] = object", "            if index in self._parameter.names:\n                old = self._parameter.names[index]\n                if old != object:\n                    idx = self.index(old)\n                    super().__setitem__(idx, object)\n                    self._parameter._objects[idx] = object"))
+V("C16", "floats_rounded_on_the_way_out", "fire", "R16.p", ("param/serializer.py", "    def dumps(cls, obj):\n        return json.dumps(obj)", "    def dumps(cls, obj):\n        return json.dumps(_rounded(obj))"), ("param/serializer.py", "class UnserializableException(Exception):", "def _rounded(obj):\n    if isinstance(obj, float):\n        return float('%.15g' % obj)\n    if isinstance(obj, dict):\n        return {k: _rounded(v) for k, v in obj.items()}\n    if isinstance(obj, (list, tuple)):\n        return [_rounded(v) for v in obj]\n    return obj\n\n\nclass UnserializableException(Exception):"))
+V("C10", "cancellation_swallowed_while_a_step_is_in_flight", "fire", "R10.z", (U, "        if sys.version_info >= (3, 9):\n            value = await asyncio.to_thread(safe_next)\n        else:\n            value = await _to_thread(safe_next)", "        step = asyncio.ensure_future(asyncio.to_thread(safe_next))\n        try:\n            value = await asyncio.shield(step)\n        except asyncio.CancelledError:\n            value = await step\n            sync_gen.close()"))
+V("C10", "benign_cancellation_reraised_after_cleanup", "benign", None, (U, "        if sys.version_info >= (3, 9):\n            value = await asyncio.to_thread(safe_next)\n        else:\n            value = await _to_thread(safe_next)", "        try:\n            if sys.version_info >= (3, 9):\n                value = await asyncio.to_thread(safe_next)\n            else:\n                value = await _to_thread(safe_next)\n        except asyncio.CancelledError:\n            sync_gen.close()\n            raise"))
+V("C09", "watch_callback_fed_from_the_event", "fire", "R09.s", (D, "            def cb(*events):\n                args = (getattr(dep.owner, dep.name) for dep in dependencies)\n                dep_kwargs = {n: getattr(dep.owner, dep.name) for n, dep in kw.items()}\n                return func(*args, **dep_kwargs)", "            def cb(*events):\n                seen = {(id(e.obj), e.name): e.new for e in events}\n                args = (seen.get((id(dep.owner), dep.name), getattr(dep.owner, dep.name)) for dep in dependencies)\n                dep_kwargs = {n: getattr(dep.owner, dep.name) for n, dep in kw.items()}\n                return func(*args, **dep_kwargs)"))
+V("C02", "constructor_links_before_the_last_keyword", "fire", "R02.k", (Z, "            if ref is not None:\n                refs[name] = ref\n                deps[name] = ref_deps\n            if not is_async and not (resolved is Undefined or resolved is Skip):\n                setattr(self, name, resolved)\n        return refs, deps", "            if ref is not None:\n                refs[name] = ref\n                deps[name] = ref_deps\n            if not is_async and not (resolved is Undefined or resolved is Skip):\n                setattr(self, name, resolved)\n            if ref is not None:\n                self_._update_ref(name, ref)\n        return refs, deps"))
